@@ -198,6 +198,17 @@ def main():
                     if got != expect[tid_of[n]]:
                         anomalies.append(f"read of {n} (tensor {tid_of[n]}) returned {got}, expected {expect[tid_of[n]]}")
                     del tt
+                elif act == "iter":
+                    obj = ns[m]
+                    ns[n] = (obj if isinstance(obj, Tensor) else Tensor(obj)).items()
+                    tid_of[n] = tid_of[m]
+                elif act == "consume":
+                    it = ns.pop(n)
+                    tid = tid_of.pop(n)
+                    got = {tuple(c): v for c, v in it if v != 0}
+                    it = None
+                    if got != expect[tid]:
+                        anomalies.append(f"consume of the items() iterator {n} (tensor {tid}) yielded {got}, expected {expect[tid]}")
                 elif act == "pickle":
                     t = pickle.loads(pickle.dumps(ns[m]))
                     ntens += 1
@@ -214,6 +225,7 @@ def main():
                 t = None
                 src = None
                 obj = None
+                it = None
                 gc.collect()
             except Exception as e:  # noqa: BLE001
                 anomalies.append(f"{act} raised {type(e).__name__}: {e}")
@@ -224,11 +236,16 @@ def main():
         # content check of everything still named (use after free would show as garbage or crash)
         for n, obj in list(ns.items()):
             try:
+                if hasattr(obj, "__next__"):
+                    got = {tuple(c): v for c, v in obj if v != 0}
+                    if got != expect[tid_of[n]]:
+                        anomalies.append(f"final consume of the items() iterator {n} yielded {got}, expected {expect[tid_of[n]]}")
+                    continue
                 tt = obj if isinstance(obj, Tensor) else Tensor(obj)
                 tt.to_dok()
             except Exception as e:  # noqa: BLE001
                 anomalies.append(f"final read of {n} raised {type(e).__name__}")
-        obj = tt = t = src = None
+        obj = tt = t = src = it = None
         ns.clear()
         gc.collect()
         absorb(drain())
